@@ -328,9 +328,12 @@ int ref_word_bytes(int backend)
     case REF_BE_XOR: return 4;
     case REF_BE_NULL: return 4;
     case REF_BE_ISAL_VAND: case REF_BE_ISAL_CAUCHY: return 1;
+    case REF_BE_SHSS: return 16;            /* w = 128 bits */
     }
     return 0;
 }
+
+int ref_backend_metadata_bytes(int backend) { return backend == REF_BE_SHSS ? 32 : 0; }
 
 uint64_t ref_aligned_size(int backend, int k, uint64_t len)
 {
